@@ -99,6 +99,8 @@ def body(chk):
                 chk.paths_clean('%s:%s:callback-evaluated-once-at-exact-T' % (tag, meth), bad, key='euler_chem_1d:%s:callback' % meth)
         chk.identity('%s:Q_rho_N+Q_rho_N2=d(rho u)/dx-for-every-K_eq' % tag, libs['rho_N'] + libs['rho_N2'], res['mass'], A, key='euler_chem_1d:species-sum',
                      replay=make_replay(chk, v, 'eval_q_rho_N', libs['rho_N'], res['rho_N'], True))
+    import c09
+    c09.add_type_purity(chk, ['euler_chem'])
     chk.solve_all()
 
 
